@@ -381,5 +381,48 @@ func buildStarter(target string, startSection bool) []byte {
 	} else {
 		m.ExportFunc("_start", run)
 	}
+	m.ExportFunc("ping", m.AddFunc(nil, []byte{i32}, nil, (&wb.Asm{}).I32Const(7).B))
+	return m.Encode()
+}
+
+// selfKinds are the kinds a self-starter can perform in its own start function (the host's "calling module"
+// is then the NEW instance).
+var selfKinds = []int{KOk, KUnreachable, KPanicError, KProcExit0, KProcExit3, KClose0, KClose7}
+
+// buildSelfStarter emits a module whose start function (start section or "_start") itself ends in the kind.
+func buildSelfStarter(kind int, startSection bool) []byte {
+	m := &wb.Module{}
+	i32 := wb.I32
+	hp := m.ImportFunc(hostModName, "panic", []byte{i32}, nil)
+	hc := m.ImportFunc(hostModName, "close", []byte{i32}, nil)
+	pe := m.ImportFunc(wasiModName, "proc_exit", []byte{i32}, nil)
+	m.Mem = &wb.Limits{Min: 1}
+	a := (&wb.Asm{}).I32Const(0).I32Const(1).Mem(0x36, 2, 0)
+	switch kind {
+	case KOk:
+	case KUnreachable:
+		a.Unreachable()
+	case KPanicError:
+		a.I32Const(KPanicError).Call(hp)
+	case KProcExit0:
+		a.I32Const(0).Call(pe)
+	case KProcExit3:
+		a.I32Const(3).Call(pe)
+	case KClose0:
+		a.I32Const(0).Call(hc)
+	case KClose7:
+		a.I32Const(7).Call(hc)
+	default:
+		panic("self kind")
+	}
+	a.I32Const(8).I32Const(1).Mem(0x36, 2, 0)
+	run := m.AddFunc(nil, nil, nil, a.B)
+	m.FuncNames = map[uint32]string{run: "run"}
+	if startSection {
+		m.Start = &run
+	} else {
+		m.ExportFunc("_start", run)
+	}
+	m.ExportFunc("ping", m.AddFunc(nil, []byte{i32}, nil, (&wb.Asm{}).I32Const(7).B))
 	return m.Encode()
 }
